@@ -1,6 +1,6 @@
 (* C12 - every API call emits exactly the AMQP method its arguments describe.
    This file only pins statements. *)
-From Amq Require Import Lib.Base Model.ApiTable Spec.Api Proofs.Api Model.Method Proofs.Method.
+From Amq Require Import Lib.Base Model.ApiTable Spec.Api Proofs.Api Model.Method Proofs.Method Lib.RsVal Gen.SrcOptions Proofs.OptionsSrc.
 
 (* for EVERY operation and all argument values: where the documentation says nothing is sent (a delivery settled through another channel: panic; a second cancel) nothing is emitted; otherwise exactly ONE method is emitted and it is the one the documentation table (Spec/Api.Describes, written independently) gives for these arguments, field by field *)
 Theorem C12_emit_describes : forall o : api_op, (sends_nothing o -> emit o = None \/ emit o = Some []) /\ (~ sends_nothing o -> exists m : amqp, emit o = Some [wire m] /\ Describes o m).
@@ -42,6 +42,18 @@ Proof. exact enc_method_injective. Qed.
 Theorem C12_wire_fields : forall (fs : list field) (r : list N), Forall wf_field fs -> dec_fields (map type_of fs) (enc_fields fs ++ r) = Some (fs, r).
 Proof. exact dec_enc_fields. Qed.
 
+(* THE MODEL IS THE SOURCE (the option helpers of src/queue.rs and src/exchange.rs as translated from the source text on every run: Gen/SrcOptions.v): QueueDeclareOptions::into_declare puts every option into the Queue.Declare field the table `emit` says - for declare, declare_nowait and declare_passive *)
+Theorem C12_queue_declare_source_is_model : forall (name : list N) (durable exclusive auto_delete : bool) (args : N) (nowait : bool), in_order queue_declare_fields (gen_QueueDeclareOptions_into_declare (VR [("durable", enc_bool durable); ("exclusive", enc_bool exclusive); ("auto_delete", enc_bool auto_delete); ("arguments", VO args)]) (VBytes name) (enc_bool false) (enc_bool nowait)) = fields_of (AQueueDeclare (if nowait then DNowait else DSync) name durable exclusive auto_delete args) /\ in_order queue_declare_fields (gen_QueueDeclareOptions_into_declare (VR [("durable", enc_bool false); ("exclusive", enc_bool false); ("auto_delete", enc_bool false); ("arguments", VO 0)]) (VBytes name) (enc_bool true) (enc_bool false)) = fields_of (AQueueDeclare DPassive name durable exclusive auto_delete args).
+Proof. exact queue_declare_source_is_model. Qed.
+
+(* ... QueueDeleteOptions::into_delete likewise (seed C12g filled if_empty from if_unused: this obligation breaks) *)
+Theorem C12_queue_delete_source_is_model : forall (v : via) (name : list N) (if_unused if_empty nowait : bool), in_order queue_delete_fields (gen_QueueDeleteOptions_into_delete (VR [("if_unused", enc_bool if_unused); ("if_empty", enc_bool if_empty)]) (VBytes name) (enc_bool nowait)) = fields_of (AQueueDelete v nowait name if_unused if_empty).
+Proof. exact queue_delete_source_is_model. Qed.
+
+(* ... and ExchangeDeclareOptions::into_declare *)
+Theorem C12_exchange_declare_source_is_model : forall (ty name : list N) (durable auto_delete internal : bool) (args : N) (nowait : bool), in_order exchange_declare_fields (gen_ExchangeDeclareOptions_into_declare ext_model (VR [("durable", enc_bool durable); ("auto_delete", enc_bool auto_delete); ("internal", enc_bool internal); ("arguments", VO args)]) (VBytes ty) (VBytes name) (enc_bool false) (enc_bool nowait)) = fields_of (AExchangeDeclare (if nowait then DNowait else DSync) ty name durable auto_delete internal args).
+Proof. exact exchange_declare_source_is_model. Qed.
+
 (* non-vacuity: Exchange::bind_to_destination puts self as the SOURCE *)
 Example C12_example :
   emit (AExchangeBind BToDestination true false [97] [98] [114] 2)
@@ -59,6 +71,9 @@ Check C12_documented_none : forall o : api_op, documented o = None <-> sends_not
 Check C12_wire_roundtrip : forall (cls meth : N) (fs : list field), cls < 65536 -> meth < 65536 -> schema cls meth = Some (map type_of fs) -> Forall wf_field fs -> dec_method (enc_method cls meth fs) = Some (cls, meth, fs).
 Check C12_wire_injective : forall (c1 m1 : N) (f1 : list field) (c2 m2 : N) (f2 : list field), c1 < 65536 -> m1 < 65536 -> schema c1 m1 = Some (map type_of f1) -> Forall wf_field f1 -> c2 < 65536 -> m2 < 65536 -> schema c2 m2 = Some (map type_of f2) -> Forall wf_field f2 -> enc_method c1 m1 f1 = enc_method c2 m2 f2 -> (c1, m1, f1) = (c2, m2, f2).
 Check C12_wire_fields : forall (fs : list field) (r : list N), Forall wf_field fs -> dec_fields (map type_of fs) (enc_fields fs ++ r) = Some (fs, r).
+Check C12_queue_declare_source_is_model : forall (name : list N) (durable exclusive auto_delete : bool) (args : N) (nowait : bool), in_order queue_declare_fields (gen_QueueDeclareOptions_into_declare (VR [("durable", enc_bool durable); ("exclusive", enc_bool exclusive); ("auto_delete", enc_bool auto_delete); ("arguments", VO args)]) (VBytes name) (enc_bool false) (enc_bool nowait)) = fields_of (AQueueDeclare (if nowait then DNowait else DSync) name durable exclusive auto_delete args) /\ in_order queue_declare_fields (gen_QueueDeclareOptions_into_declare (VR [("durable", enc_bool false); ("exclusive", enc_bool false); ("auto_delete", enc_bool false); ("arguments", VO 0)]) (VBytes name) (enc_bool true) (enc_bool false)) = fields_of (AQueueDeclare DPassive name durable exclusive auto_delete args).
+Check C12_queue_delete_source_is_model : forall (v : via) (name : list N) (if_unused if_empty nowait : bool), in_order queue_delete_fields (gen_QueueDeleteOptions_into_delete (VR [("if_unused", enc_bool if_unused); ("if_empty", enc_bool if_empty)]) (VBytes name) (enc_bool nowait)) = fields_of (AQueueDelete v nowait name if_unused if_empty).
+Check C12_exchange_declare_source_is_model : forall (ty name : list N) (durable auto_delete internal : bool) (args : N) (nowait : bool), in_order exchange_declare_fields (gen_ExchangeDeclareOptions_into_declare ext_model (VR [("durable", enc_bool durable); ("auto_delete", enc_bool auto_delete); ("internal", enc_bool internal); ("arguments", VO args)]) (VBytes ty) (VBytes name) (enc_bool false) (enc_bool nowait)) = fields_of (AExchangeDeclare (if nowait then DNowait else DSync) ty name durable auto_delete internal args).
 
 Print Assumptions C12_emit_describes.
 Print Assumptions C12_nowait_iff.
@@ -70,4 +85,7 @@ Print Assumptions C12_documented_none.
 Print Assumptions C12_wire_roundtrip.
 Print Assumptions C12_wire_injective.
 Print Assumptions C12_wire_fields.
+Print Assumptions C12_queue_declare_source_is_model.
+Print Assumptions C12_queue_delete_source_is_model.
+Print Assumptions C12_exchange_declare_source_is_model.
 Print Assumptions C12_example.
